@@ -14,6 +14,7 @@ import (
 	"errors"
 	"fmt"
 	"io"
+	"net/http"
 	"strconv"
 	"strings"
 	"time"
@@ -75,6 +76,9 @@ type Case struct {
 	// SinkFail: k > 0: the byte sink behind an io.Writer / *csv.Writer destination (consume) or behind the producer's
 	// writer takes k-1 bytes and refuses the rest. A sink that refused a write is an error, never a shorter table. (r8)
 	SinkFail int `json:"sink_fail,omitempty"`
+	// Empty (with an empty Text): the empty input is handed over in its most literal form: the consumer reads from
+	// http.NoBody, the producer is given nil slices ([][]string(nil), []byte(nil), pointers to them). Empty is empty. (r9)
+	Empty bool `json:"empty,omitempty"`
 }
 
 var errSourceFailed = errors.New("scripted failure of the io.WriterTo source")
@@ -590,6 +594,9 @@ func checkConsume(c Case, kind int) *kit.Violation {
 	if !c.Rich {
 		reader = onlyReader{src} // hides Close
 	}
+	if c.Empty && in == "" && c.SrcFail == 0 {
+		reader = http.NoBody
+	}
 
 	var (
 		err       error
@@ -823,6 +830,9 @@ func checkProduce(c Case, kind int) ([]byte, *kit.Violation) {
 	case kTable:
 		eff = model{recs: m.recs}
 		t := deepCopy(m.recs)
+		if c.Empty && in == "" && len(t) == 0 {
+			t = nil
+		}
 		switch {
 		case c.NamedRecord:
 			tr := make([]record, len(t))
@@ -842,6 +852,9 @@ func checkProduce(c Case, kind int) ([]byte, *kit.Violation) {
 		}
 	case kBytes:
 		b := []byte(in)
+		if c.Empty && in == "" {
+			b = nil
+		}
 		switch {
 		case c.Named && c.Ptr:
 			nb := blob(b)
